@@ -58,21 +58,16 @@ func (c *Ctx) BuildTRel(s *Steps, timeout time.Duration) (*TRel, error) {
 		wg.Add(1)
 		go func(i int, p *StepPath) {
 			defer wg.Done()
-			if p.PC.IsTrue() {
+			if p.PC.IsTrue() || timeout == 0 {
 				keep[i] = 1
 				return
 			}
 			var r smt.Result
 			as := []*smt.Term{p.PC}
 			as = append(as, sym.SideConditions(as)...)
-			for _, to := range []time.Duration{timeout, 4 * timeout} {
-				s.Interp.WithWorker(func(w *smt.Worker) {
-					r = w.Check(&smt.Query{Name: fmt.Sprintf("stepfeas-%d", p.ID), Asserts: as, Timeout: to})
-				})
-				if r.Status != smt.Unknown {
-					break
-				}
-			}
+			s.Interp.WithWorker(func(w *smt.Worker) {
+				r = w.Check(&smt.Query{Name: fmt.Sprintf("stepfeas-%d", p.ID), Asserts: as, Timeout: timeout})
+			})
 			switch r.Status {
 			case smt.Sat:
 				keep[i] = 1
